@@ -65,6 +65,56 @@ theorem mutate_twice_refused (ff : FF) (rn t u : String) (rest : List String) (m
     simp [h]
   rw [this]
 
+/-- **Equal targets are one request**: several mutation requests that hit the same residue and
+name the same block (`-mutate A-PHE2:ALA -mutate PHE:ALA`) build exactly the reference a single
+request builds — in particular they are not refused. -/
+theorem mutate_twice_same_target_ok (ff : FF) (rn t : String) (rest : List String) (mods : Option (List String))
+    (h : ∀ x ∈ rest, x = t) :
+    getReference ff rn (some (t :: rest)) mods = getReference ff rn (some [t]) mods ∧
+    getReference ff rn (some (t :: rest)) mods ≠ .error .mutateTwice := by
+  have h1 : targetName rn (some (t :: rest)) = .ok t := (target_of_mutation rn t rest h).1
+  have h2 : targetName rn (some [t]) = .ok t := (target_of_mutation rn t [] (by simp)).1
+  have heq : getReference ff rn (some (t :: rest)) mods = getReference ff rn (some [t]) mods := by
+    unfold getReference getReferenceGen
+    rw [h1, h2]
+  refine ⟨heq, ?_⟩
+  rw [heq]
+  unfold getReference getReferenceGen
+  rw [h2]
+  simp only
+  cases ff.blocks.lookup t with
+  | none => simp
+  | some b0 =>
+    simp only
+    cases hm : applyMods ff (mods.getD []) b0 with
+    | ok b1 => simp
+    | error e =>
+      simp only
+      intro hc
+      cases hc
+      -- applyMods never answers `mutateTwice`
+      have : ∀ (ms : List String) (b : Block), applyMods ff ms b ≠ .error .mutateTwice := by
+        intro ms
+        induction ms with
+        | nil => intro b; simp [applyMods]
+        | cons n r ih =>
+          intro b
+          unfold applyMods
+          split
+          · exact ih b
+          · split
+            · simp
+            · split
+              · simp
+              · exact ih _
+      exact this _ _ hm
+
+/-- non-vacuity: two equal requests on the toy force field below give the reference of one -/
+example : (match getReference { blocks := [("GLY", { nodes := [], edges := [(0, 1)] })], mods := [] } "ALA"
+                   (some ["GLY", "GLY"]) none with
+           | .ok b => b.edges
+           | .error _ => []) = [(0, 1)] := by decide
+
 /-- **Surplus removed, missing rebuilt.**  For a residue whose atoms carry a request, a connected
 reference and a non-empty well-formed match: after the repair (1) every reference atom is played
 by an atom of the molecule that carries its name, (2) every atom of the residue that is still
